@@ -342,6 +342,12 @@ func c07RunMode(run *vfRun, c c07Case, mode string) {
 			inCur[p] = true
 		}
 		var downNode *vfbNode
+		remainers := 0
+		for _, pos := range cur.members {
+			if inNext[pos] {
+				remainers++
+			}
+		}
 		for _, pos := range cur.members {
 			n := nt.nodes[pos]
 			oldShares[pos] = cur.shares[pos]
@@ -353,7 +359,11 @@ func c07RunMode(run *vfRun, c c07Case, mode string) {
 				}
 				n.share, n.grp = next.shares[pos], next.group
 				n.index = int(next.group.Find(n.pair.Public).Index)
-				if c.Outage == "one-remainer-down-across-transition" && downNode == nil && len(next.members) > next.group.Threshold {
+				// the outage must leave a threshold of the NEW group and of the OLD one without counting on the leavers
+				// (they stop one second before the transition: a previous group that needs a leaver's partial for its
+				// last round has no margin at all, and the statement promises nothing for it)
+				if c.Outage == "one-remainer-down-across-transition" && downNode == nil && len(next.members) > next.group.Threshold &&
+					remainers-1 >= cur.group.Threshold {
 					downNode = n
 				}
 			default: // leaver
